@@ -302,13 +302,25 @@ class TimeStamp(TdmsType):
         return TimestampArray(byte_array.view(dtype).reshape(-1))
 
 
+class ComplexType(TdmsType):
+    nptype = None
+
+    @classmethod
+    def from_bytes(cls, byte_array, endianness="<"):
+        """ Convert an array of bytes into a numpy array of data
+        """
+        array = byte_array.view()
+        array.dtype = cls.nptype.newbyteorder(endianness)
+        return array
+
+
 @tds_data_type(0x08000c, np.complex64)
-class ComplexSingleFloat(TdmsType):
+class ComplexSingleFloat(ComplexType):
     size = 8
 
 
 @tds_data_type(0x10000d, np.complex128)
-class ComplexDoubleFloat(TdmsType):
+class ComplexDoubleFloat(ComplexType):
     size = 16
 
 
